@@ -23,6 +23,11 @@ Theorem C03_contains_is_pep440 s sp item : Specifier s = Some sp ->
   Some (contains sp None (Some true) item) = contains_spec sp item.
 Proof. intros S. destruct (Specifier_interp s sp S) as (f & I & F). exact (contains_is_spec sp f item I F). Qed.
 Print Assumptions C03_contains_is_pep440.
+(* ... whatever the object's own pre-release setting is (constructor keyword or attribute assigned later): the call argument decides *)
+Theorem C03_call_argument_overrides_object_setting s sp override item : Specifier s = Some sp ->
+  Some (contains sp override (Some true) item) = contains_spec sp item.
+Proof. intros S. rewrite <- (C03_contains_is_pep440 s sp item S). reflexivity. Qed.
+Print Assumptions C03_call_argument_overrides_object_setting.
 
 (* 3. spelled out per operator on structured versions *)
 Theorem C03_operator_table sp f c : VMeaning.wf_version c -> interp sp = Some f -> form_ok (sp_op sp) f ->
